@@ -65,6 +65,9 @@ def _mk_ops():
     for kind in ("update", "|=", "-=", "&=", "^="):
         ops.append(("%s{}" % kind, kind, ()))
     for (i, j) in PAIRS[:4]:
+        for kind in ("^=list", "|=list", "-=iter", "&=list", "^=view"):
+            ops.append(("%s[e%d,e%d,e%d]" % (kind, i, j, i), kind, (i, j)))
+    for (i, j) in PAIRS[:4]:
         for kind in ("updateCFG", "|=CFG", "-=CFG", "&=CFG"):
             ops.append(("%s{e%d,e%d}" % (kind, i, j), kind, (i, j)))
     return ops, n_basic
@@ -110,6 +113,25 @@ def apply(w, opi):
     elif kind == "clear":
         cfg.clear()
         model.clear()
+    elif kind in ("^=list", "|=list", "-=iter", "&=list", "^=view"):
+        # the right-hand side is not a Set: a list naming an edge twice, an iterator, a live view of the CFG itself
+        rhs = [es[0], es[1], es[0]]
+        if kind == "^=list":
+            cfg ^= rhs
+            model ^= keys
+        elif kind == "|=list":
+            cfg |= rhs
+            model |= keys
+        elif kind == "-=iter":
+            cfg -= iter(rhs)
+            model -= keys
+        elif kind == "&=list":
+            cfg &= rhs
+            model &= keys
+        else:
+            outs = set(k for k in model if k[0] == KEYS[ks[0]][0])
+            cfg ^= cfg.out_edges(w.nodes[KEYS[ks[0]][0]])
+            model ^= outs
     elif kind in ("updateCFG", "|=CFG", "-=CFG", "&=CFG"):
         other = gtirb.CFG(es)                      # the argument is itself a CFG
         if kind == "updateCFG":
